@@ -142,3 +142,18 @@ pub fn c04_probe_and() {
     nd_cover!(true, "event.and(event)");
     std::mem::forget(c);
 }
+
+/// probe: `event` alone, shortest observation
+#[cfg_attr(kani, kani::proof, kani::unwind(5))]
+#[cfg_attr(kani, kani::stub(core::mem::MaybeUninit::write, crate::common::maybe_uninit_write))]
+pub fn c04_probe_event_only() {
+    let tag = nd::any_u8();
+    let mut c: Cmd = Command::event(tag);
+    {
+        let mut ev = c.events();
+        assert!(ev.next() == Some(tag), "event: exactly the given event");
+        assert!(ev.next().is_none(), "event: only once");
+    }
+    nd_cover!(true, "Command::event");
+    std::mem::forget(c);
+}
